@@ -8,6 +8,7 @@ def allOps : List (String × (V → R V)) :=
   ++ tabularOps
   ++ wrappersOps
   ++ replayOps
+  ++ batchingOps
 
 def dispatch (op : String) (a : V) : R V :=
   match allOps.find? (·.1 == op) with
